@@ -131,9 +131,9 @@ CLAIMED = {
         "varying latencies, with/without --junit and --fail-fast; exit status, status tags, parsed JUnit XML against the ground truth and the model. Known finding D11. "
         "Since the driver model exists (Driver.v: small-step model of run_parallel, connect_and_run_test_file and the RUNNING_TESTS lock with the scheduler, Ctrl-C and the order of closes as explicit choices): "
         "C16_driver_results_consistent (the premise of C16_exit is a theorem about everything the driver can produce), C16_driver_exit (its exit decision is 0 iff every reported result is Ok and no Ctrl-C), "
-        "C16_driver_reports_each_file_once; every parallel run of the real binary, fail-fast and refusals included, is replayed by the extracted driver model on the schedule reconstructed from it and must give the same trace, reports and exit.",
+        "C16_driver_reports_each_file_once, C16_driver_junit_one_case_per_file; for run_serial (Serial.v: the files one after the other, Ctrl-C before any file or while one runs) C16_serial_results_consistent, C16_serial_exit, C16_serial_every_file_reported_once, C16_serial_plain_results; every serial run is predicted by the extracted serial model (reports in order, exit status); every parallel run of the real binary, fail-fast and refusals included, is replayed by the extracted driver model on the schedule reconstructed from it and must give the same trace, reports and exit.",
    ref="4/C16", technique="Coq proof (induction over per-file results in any order; invariants of a small-step model of the parallel driver under every schedule) + differential correspondence with the real binary and a scripted engine, incl. replay of each parallel run by the extracted driver model",
-   note="Trusted: Coq kernel; partial: the schedule is reconstructed from engine-side time stamps and the order of the reports on stdout (canonicalised for logging lag; an unexplained run is repeated twice before it is reported); run_serial is covered by Cli.v only; the XML layer is parsed by Python's ElementTree."),
+   note="Trusted: Coq kernel; partial: the schedule is reconstructed from engine-side time stamps and the order of the reports on stdout (canonicalised for logging lag; an unexplained run is repeated twice before it is reported); run_serial is modelled without its output buffering; the XML layer is parsed by Python's ElementTree."),
  "C17": dict(
    text="Coq theorems C17_create_before_use, C17_session_integrity, C17_session_unique, C17_bounded_concurrency, C17_close_before_drop, C17_dropped_exactly_once_unless_kept: every trace accepted by the observer automaton Par.v "
         "(any length, any interleaving) uses a database only after its CREATE, never shares a session between files, has at most `jobs` files in flight, closes every session of a database before its DROP and drops every created database "
@@ -148,6 +148,7 @@ CLAIMED = {
         "C19_exit_nonzero (Ctrl-C at any point or any failure gives a non-zero exit status for every result list), C19_fail_fast_cancels (under fail-fast the first failure sets the token for good), about Par.v and Cli.v. "
         "Correspondence: the real binary, serial and -j 2..4: the fake engine sends SIGINT to the CLI at its k-th request for every k (thorough) / a spread incl. the CREATE and DROP phases (quick), and --fail-fast with the failing file at every position: "
         "exit status, no session or SQL after the interrupt, every session reaches EOF, every CREATE has its DROP, JUnit with one case per file, termination, automaton acceptance with the Cancel event. "
+        "C19_serial_no_new_work (serial driver model: once the token is set every file still to come is reported Skipped). "
         "C19_driver_quiet_after_cancel / C19_driver_fates_after_cancel: in the driver model, from the moment the token is set no step opens a session or sends a statement, and every file reported afterwards gets the result its state at that moment dictates (Skipped if it had not looked at the token, Cancelled if it was running, its own result if it was already shutting down). "
         "C19_driver_progress / C19_driver_never_doomed: in the driver model Driver.v no reachable state short of the end is stuck and a measure bounds the remaining steps - the logic of the drivers, the per-file tasks and the RUNNING_TESTS lock has "
         "no deadlock and no livelock, whatever the scheduler did and whenever Ctrl-C or a fail-fast cancellation struck (with jobs >= 1; -j 0 hangs in model and code alike, see DESIGN 0.8).",
